@@ -44,10 +44,10 @@ impl MemoryStore {
             .entry(key.clone())
             .or_insert_with(|| Arc::new(RwLock::default()))
             .clone();
-        drop(data_map);
-        #[cfg(zarrs_verif)]
-        crate::verif_hooks::emit("mem.set.cell", &[]);
+        // Take the value's write lock before releasing the map, so that a reader can never observe
+        // the freshly inserted (still empty) value
         let mut data = data.write();
+        drop(data_map);
 
         if offset == 0 && data.is_empty() {
             // fast path
